@@ -77,7 +77,7 @@ class C03(Prop):
     def cases(self, rng, tier):
         for text, cfg in CORPUS:
             yield corpus_case(text, cfg)
-        n = 1200 if tier == "quick" else 40000
+        n = 1200 if tier == "quick" else 30000
         for i in range(n):
             prof = PROFILES[i % len(PROFILES)]
             doc = dg.gen_doc(rng, **prof)
